@@ -1,6 +1,6 @@
 #!/bin/sh
 # try_seed.sh <patch> <Cxx>...: apply a seeded change to /repo, run the given checks, undo it straight afterwards
-PATCH=$1; shift
+PATCH=$(readlink -f "$1"); shift
 cd /repo || exit 9
 if [ -n "$(git status --porcelain --untracked-files=no)" ]; then echo "repo dirty, refusing"; exit 9; fi
 if ! git apply "$PATCH" 2>/dev/null; then
